@@ -35,6 +35,12 @@ void xv_preserves_push(Self* s, bool v) __CPROVER_requires(1) __CPROVER_assigns(
 bool xv_preserves_empty(Self* s) __CPROVER_requires(1) __CPROVER_assigns() __CPROVER_ensures(1) ;
 bool xv_preserves_back(Self* s) __CPROVER_requires(1) __CPROVER_assigns() __CPROVER_ensures(__CPROVER_return_value == true || __CPROVER_return_value == false) ;
 void xv_preserves_pop(Self* s) __CPROVER_requires(1) __CPROVER_assigns() __CPROVER_ensures(1) ;
+bool xv_pred(Self* s) __CPROVER_requires(1) __CPROVER_assigns() __CPROVER_ensures(1) ;                 /* m_charPredicate.range/content: any answer */
+void xv_text_run(Self* s, size_t n)                                                                      /* safeWriteContent(run): n units of text, nothing if n == 0 */
+__CPROVER_requires(n == 0 || g_last != L_INDENT) __CPROVER_assigns(g_last) __CPROVER_ensures(n > 0 ? g_last == L_TEXT : g_last == __CPROVER_old(g_last)) ;
+size_t xv_text_big(Self* s, size_t i, size_t length)                                                      /* writeNormalizedCharBig: one or two units of text */
+__CPROVER_requires(i < length && g_last != L_INDENT) __CPROVER_assigns(g_last)
+__CPROVER_ensures(g_last == L_TEXT && (__CPROVER_return_value == i || __CPROVER_return_value == i + 1) && __CPROVER_return_value < length) ;
 void xv_other(Self* s) __CPROVER_requires(1) __CPROVER_assigns() __CPROVER_ensures(1) ;      /* doctype bookkeeping etc. */
 size_t xv_attr_count(AttributeList* a) __CPROVER_requires(1) __CPROVER_assigns() __CPROVER_ensures(1) ;
 
@@ -99,7 +105,7 @@ TEMPLATE = PRELUDE + '\n'.join('@@FN ih_%s@@' % n for n in reversed(IH)) + r'''
 @@FN writeCharacters@@
 ''' + '\n'.join('@@FN %s@@' % n for n in OPS) + r'''
 static void xv_havoc(void) { int l; bool p; g_last = l; g_parent_open = XV_BOOL(p); }
-void h_writeCharacters(void) { xv_havoc(); Self* s; writeCharacters(s, 0, 1); }
+void h_writeCharacters(void) { xv_havoc(); Self* s; size_t n; writeCharacters(s, 0, n); }
 ''' + '\n'.join('void h_%s(void) { xv_havoc(); Self* s; %s(s, 0%s); }' % (n, n, ', 0' if n == 'startElement' else ', 1' if n in ('charactersRaw', 'writeCDATA') else '') for n in OPS)
 
 # writeCharacters here: only its indentation behaviour; the escaping loop is proved in c04_escape
@@ -121,15 +127,25 @@ UNIT = Unit(
         Fn(FX, r'^\s+writeParentTagEnd\(\)', 'writeParentTagEnd', 'static void writeParentTagEnd(Self* self)', head_expect=r'void writeParentTagEnd\(\)$', rules=M, nloops=0, reach=False),
         Fn(FX, r'^\s+writeCharacters\(', 'writeCharacters', 'void writeCharacters(Self* self, const XMLCh* chars, size_t length)',
            head_expect=r'void writeCharacters\( const XMLCh\* chars, size_type length\)$',
-           rules=['SCOPE', (r'size_type\s+i = 0;.*safeWriteContent\(chars \+ firstIndex, i - firstIndex\);', 'xv_out_text(self);   /* the escaping loop: see unit c04_escape */', 1)] + M[1:],
-           contract='OP_CONTRACT(characters)', nloops=0),
+           rules=M + [(r'm_charPredicate\.(\w+)\(ch\)', r'xv_pred(self)', (0, 3)),
+                      (r'(?<![\w.>])safeWriteContent\(chars \+ firstIndex, i - firstIndex\);', 'xv_text_run(self, i - firstIndex);', (1, 4)),
+                      (r'i = writeNormalizedCharBig\(chars, i, length\);', 'i = xv_text_big(self, i, length);', 1),
+                      (r'(?<![\w.>])writeDefaultEscape\(ch\);', 'xv_out_text(self);', 1),
+                      (r'const XalanDOMChar\s+ch = chars\[i\];', '', 1)],
+           contract='OP_CONTRACT(characters)\n__CPROVER_requires(length >= 1 && length <= ((size_t)1 << 40))',
+           loops={0: '''
+__CPROVER_assigns(i, firstIndex, g_last)
+__CPROVER_loop_invariant(firstIndex <= i && i <= length && g_last != L_INDENT)
+__CPROVER_loop_invariant(/* when the pending run is empty something has already been written as text (or nothing was consumed yet) */ (i > 0 && firstIndex == i) ==> g_last == L_TEXT)
+__CPROVER_decreases(length - i)
+'''}, nloops=1),
     ] + [Fn(FX, r'^\s+%s\(' % n, n, OPS[n][0], head_expect=OPS[n][1], rules=M + ([(r'bool\s+outsideCDATA = false;', 'bool outsideCDATA = false;', 1), (r'if \(outsideCDATA == false\)', 'if (outsideCDATA == false)', 1)] if n == 'writeCDATA' else []),
             contract=('OP_CONTRACT(%s)' % n) + ('\n__CPROVER_requires(/* an element is open: one indentation step can be taken back */ self->m_currentIndent >= self->m_indent)' if n == 'endElement' else ''), loops=({0: ATTR_LOOP} if OPS[n][2] else None), nloops=OPS[n][2]) for n in OPS],
     template=TEMPLATE,
     jobs=[Job(n, 'h_' + n, enforce=[n],
               replace=['xv_out_markup', 'xv_out_text', 'xv_out_newline', 'xv_out_whitespace', 'markParentForChildren', 'openElementForChildren', 'childNodesWereAdded',
-                       'xv_preserves_push', 'xv_preserves_empty', 'xv_preserves_back', 'xv_preserves_pop', 'xv_other', 'xv_attr_count'],
-              loop_contracts=bool(OPS.get(n, (0, 0, 0))[2]), reach=['entry:' + n], timeout=300) for n in list(OPS) + ['writeCharacters']],
+                       'xv_preserves_push', 'xv_preserves_empty', 'xv_preserves_back', 'xv_preserves_pop', 'xv_other', 'xv_attr_count', 'xv_pred', 'xv_text_run', 'xv_text_big'],
+              loop_contracts=bool(OPS.get(n, (0, 0, 1))[2]), reach=['entry:' + n], timeout=300) for n in list(OPS) + ['writeCharacters']],
     mutants=[
         Mutant('chars_no_prevtext', FX, r'(safeWriteContent\(chars \+ firstIndex, i - firstIndex\);\s*)m_indentHandler\.setPrevText\(true\);', r'\1m_indentHandler.setPrevText(false);', expect='representation invariant'),
         Mutant('should_indent_or', IW, r'return \(!m_ispreserve && !m_isprevtext\);', 'return (!m_ispreserve || !m_isprevtext);', expect='indentation'),
